@@ -44,7 +44,7 @@ var rules = map[string]string{
 // extraChecks: oracle-only parts of a property that do not go through the model driver (sizes the
 // list-based model cannot run in reasonable time)
 var extraChecks = map[string]func(r *rng, tier string, res *Result){
-	"C15": c15LargeGarbage,
+	"C15": func(r *rng, tier string, res *Result) { c15LargeGarbage(r, tier, res); c15LegacyNames(r, tier, res) },
 	"C02": func(r *rng, tier string, res *Result) { c02LargeIndex(r, tier, res); c02CloseFaults(r, tier, res) },
 	"C16": c16LargeValueOnMMap,
 	"C03": cBackgroundDuringRecovery,
